@@ -29,6 +29,7 @@ func init() {
 		Assumptions: []string{"reflect.Value.Set copies arrays and structs; Interface() detaches a value from its container", "only the listed copy points are decided"},
 		Run:         runC04,
 	})
+	ruleText["R04.18"] = "= R07.7 shared: the argument copier copies every settable value, whatever its kind: a slice, map, pointer or channel header is a value too, and the variable holding it can be assigned before the deferred call or goroutine reads it"
 	ruleText["R04.1"] = "same analysis as C01/R01.6 (multiple assignment: sources into fresh temporaries first)"
 	ruleText["R04.2"] = "same analysis as C01/R01.7 (multi-value return: operands before results)"
 	ruleText["R04.3"] = "same analysis as C05/R05.2 (slots of a new activation frame bound to fresh storage only)"
@@ -81,6 +82,8 @@ func runC04(c *Config, r *Report) {
 	c07R14(ic, r, "R04.14")
 	c04R15(ic, r)
 	c04R16(ic, r)
+	c04R17(ic, r)
+	copiersAlwaysCopy(ic, r, "R04.18")
 	{
 		sub := newReport("C01")
 		c01R20(ic, sub)
@@ -909,5 +912,201 @@ func c04R16(ic *IC, r *Report) {
 	}
 	if n == 0 {
 		r.Errorf("R04.16: no map-entry assignment found in the multiple-assignment closures of assign")
+	}
+}
+
+func init() {
+	ruleText["R04.17"] = "every evaluation of a composite literal populates a value of its own: in the closures of the composite-literal generators the value whose elements, fields or entries are set is created there (reflect.New(T).Elem(), MakeSlice, MakeMap...) or comes from an in-package function that returns a new value at each call - none of the assignments to that function's result reads a field of the type (a memo) and the function assigns no field"
+}
+
+// c04R17: round-6 seed. itype.zero memoized the zero value of composite types in the type:
+// every literal of a defined array type was populated in that one shared value.
+func c04R17(ic *IC, r *Report) {
+	info := ic.Info
+	work := compositeBuilders(ic, r, "R04.17")
+	if work == nil {
+		return
+	}
+	execFld := ic.field("node", "exec")
+	cp := copiers(ic)
+	// producers checked once
+	producerOK := map[*types.Func]string{}
+	checkProducer := func(f *types.Func) string {
+		if why, ok := producerOK[f]; ok {
+			return why
+		}
+		producerOK[f] = ""
+		fi := ic.G.Funcs[f]
+		if fi == nil || fi.Decl.Body == nil {
+			producerOK[f] = "its body is not available"
+			return producerOK[f]
+		}
+		sg := f.Type().(*types.Signature)
+		if sg.Results().Len() == 0 {
+			return ""
+		}
+		res := sg.Results().At(0)
+		why := ""
+		ast.Inspect(fi.Decl.Body, func(q ast.Node) bool {
+			as, ok := q.(*ast.AssignStmt)
+			if !ok {
+				return true
+			}
+			for i, l := range as.Lhs {
+				// no field assigned (a memo being filled)
+				if se, ok := unparen(l).(*ast.SelectorExpr); ok {
+					if v := selField(info, se); v != nil && v.IsField() && types.TypeString(v.Type(), nil) == "reflect.Value" {
+						if _, isRecv := info.ObjectOf(rootIdent(se)).(*types.Var); isRecv {
+							why = f.Name() + " stores into the field " + types.ExprString(se) + " at " + ic.pos(as.Pos())
+						}
+					}
+				}
+				id := identOf(l)
+				if id == nil || info.ObjectOf(id) != res || res.Name() == "" {
+					continue
+				}
+				var rhs ast.Expr
+				if len(as.Rhs) == len(as.Lhs) {
+					rhs = as.Rhs[i]
+				} else if len(as.Rhs) == 1 {
+					rhs = as.Rhs[0]
+				}
+				if rhs == nil {
+					continue
+				}
+				if isFreshValue(ic, cp, rhs) {
+					continue
+				}
+				if c, ok := unparen(rhs).(*ast.CallExpr); ok {
+					if g, ok := calleeOf(info, c).(*types.Func); ok && g == f {
+						continue // the same function on the underlying type
+					}
+					if isCallTo(info, c, "reflect.MakeSlice", "reflect.MakeMap", "reflect.MakeMapWithSize", "reflect.MakeChan") {
+						continue
+					}
+				}
+				if ix, ok := unparen(rhs).(*ast.IndexExpr); ok {
+					if bid := identOf(ix.X); bid != nil {
+						if v, ok := info.ObjectOf(bid).(*types.Var); ok && v.Parent() == ic.Pk.Types.Scope() {
+							// the table of the zero values of the basic types: never stored into
+							stored := ""
+							for _, hd := range ic.G.Funcs {
+								if hd.Decl.Body == nil {
+									continue
+								}
+								ast.Inspect(hd.Decl.Body, func(z ast.Node) bool {
+									if a3, ok := z.(*ast.AssignStmt); ok {
+										for _, l3 := range a3.Lhs {
+											if ix3, ok := unparen(l3).(*ast.IndexExpr); ok {
+												if b3 := identOf(ix3.X); b3 != nil && info.ObjectOf(b3) == v {
+													stored = ic.pos(a3.Pos())
+												}
+											}
+										}
+									}
+									return true
+								})
+							}
+							if stored == "" {
+								continue
+							}
+							why = f.Name() + " returns " + types.ExprString(rhs) + " (" + ic.pos(as.Pos()) + "), an entry of a table that is filled at run time (" + stored + ")"
+							continue
+						}
+					}
+				}
+				why = f.Name() + " returns " + types.ExprString(rhs) + " (" + ic.pos(as.Pos()) + "), which is not created by the call"
+			}
+			return true
+		})
+		producerOK[f] = why
+		return why
+	}
+	n := 0
+	for _, f := range work {
+		fi := ic.G.Funcs[f]
+		k := 0
+		ast.Inspect(fi.Decl.Body, func(m ast.Node) bool {
+			as, ok := m.(*ast.AssignStmt)
+			if !ok || len(as.Lhs) != 1 || len(as.Rhs) != 1 || selField(info, as.Lhs[0]) != execFld {
+				return true
+			}
+			fl, ok := unparen(as.Rhs[0]).(*ast.FuncLit)
+			if !ok {
+				return true
+			}
+			k++
+			// populated values: locals X with X.Index(..).Set / X.Field(..).Set / X.SetMapIndex
+			pop := map[types.Object]bool{}
+			ast.Inspect(fl.Body, func(q ast.Node) bool {
+				c, ok := q.(*ast.CallExpr)
+				if !ok {
+					return true
+				}
+				se, ok := unparen(c.Fun).(*ast.SelectorExpr)
+				if !ok {
+					return true
+				}
+				switch {
+				case isCallTo(info, c, "reflect.Value.SetMapIndex"):
+					if id := identOf(se.X); id != nil {
+						pop[info.ObjectOf(id)] = true
+					}
+				case isCallTo(info, c, "reflect.Value.Set"):
+					if inner, ok := unparen(se.X).(*ast.CallExpr); ok && isCallTo(info, inner, "reflect.Value.Index", "reflect.Value.Field") {
+						if id := identOf(unparen(inner.Fun).(*ast.SelectorExpr).X); id != nil {
+							pop[info.ObjectOf(id)] = true
+						}
+					}
+				}
+				return true
+			})
+			if len(pop) == 0 {
+				return true
+			}
+			n++
+			var bad []string
+			ast.Inspect(fl.Body, func(q ast.Node) bool {
+				a2, ok := q.(*ast.AssignStmt)
+				if !ok {
+					return true
+				}
+				for i, l := range a2.Lhs {
+					id := identOf(l)
+					if id == nil || !pop[info.ObjectOf(id)] {
+						continue
+					}
+					var rhs ast.Expr
+					if len(a2.Rhs) == len(a2.Lhs) {
+						rhs = a2.Rhs[i]
+					} else if len(a2.Rhs) == 1 {
+						rhs = a2.Rhs[0]
+					}
+					if rhs == nil || isFreshValue(ic, cp, rhs) {
+						continue
+					}
+					c, ok := unparen(rhs).(*ast.CallExpr)
+					if ok && isCallTo(info, c, "reflect.MakeSlice", "reflect.MakeMap", "reflect.MakeMapWithSize") {
+						continue
+					}
+					if ok {
+						if g, isF := calleeOf(info, c).(*types.Func); isF && g.Pkg() == ic.Pk.Types {
+							if why := checkProducer(g); why != "" {
+								bad = append(bad, types.ExprString(l)+" = "+types.ExprString(rhs)+" at "+ic.pos(a2.Pos())+": "+why)
+							}
+							continue
+						}
+					}
+					bad = append(bad, types.ExprString(l)+" = "+types.ExprString(rhs)+" at "+ic.pos(a2.Pos())+" is not a value created by this evaluation")
+				}
+				return true
+			})
+			r.Check(len(bad) == 0, "R04.17", fmt.Sprintf("%s/closure#%d/populates-a-value-of-its-own", f.Name(), k), ic.pos(fl.Pos()), "the populated value is created at each evaluation",
+				"the closure generated by "+f.Name()+" populates a value that is not created by this evaluation of the literal ("+strings.Join(bad, "; ")+"): all the literals of the type are built in the same storage - the elements a literal does not list keep what an earlier literal put there, and values already built change when a new literal is evaluated")
+			return true
+		})
+	}
+	if n < 5 {
+		r.Errorf("R04.17: only %d closures populating a composite value found", n)
 	}
 }
